@@ -143,6 +143,14 @@ int main(int argc, char** argv) {
         }
         o.key("ncells").i(L.size());
         const std::string cpath = work + "/cell_" + std::to_string(C["k"].i()) + ".vtk", fpath = work + "/face_" + std::to_string(C["k"].i()) + ".vtk";
+        // the path-based writer of the cell-data file, called the way a user calls it (its default arguments), FIRST -- on the cells as
+        // they are, unused slots included; what the reader returns for its file is compared below with what it returns for the file of
+        // mesh_writer::write
+        const std::string ppath = work + "/pcell_" + std::to_string(C["k"].i()) + ".vtk";
+        std::string perr; std::vector<mesh> pmeshes; std::vector<short> ptypes;
+        // (this writer does not add the cell_type_id array unless asked to: only the geometry is compared)
+        try { mesh_writer::write_cell_data_file(ppath, L); mesh_reader pr(ppath, false); pmeshes = pr.read(); } catch (std::exception& e) { perr = e.what(); }
+        std::remove(ppath.c_str());
         std::string werr;
         try { mesh_writer::write(cpath, fpath, L); } catch (std::exception& e) { werr = e.what(); }
         std::remove(fpath.c_str());
@@ -153,7 +161,11 @@ int main(int argc, char** argv) {
             mesh_reader r(cpath, false);
             auto meshes = r.read();
             auto types = r.get_cell_types();
-            o.key("ok").b(true).key("types").iarr(types);
+            bool path_same = perr.empty() && pmeshes.size() == meshes.size();
+            for (size_t q = 0; path_same && q < meshes.size(); q++)
+                if (pmeshes[q].node_pos_lst != meshes[q].node_pos_lst || pmeshes[q].face_point_ids != meshes[q].face_point_ids) path_same = false;
+            if (getenv("VDBG")) fprintf(stderr, "perr='%s' sizes %zu %zu types %zu %zu\n", perr.c_str(), pmeshes.size(), meshes.size(), ptypes.size(), types.size());
+            o.key("ok").b(true).key("path_same").b(path_same).key("types").iarr(types);
             o.key("cells").arr();
             for (auto& mm : meshes) {
                 o.obj().key("nodes").darr(mm.node_pos_lst);
@@ -162,7 +174,7 @@ int main(int argc, char** argv) {
                 o.end_arr().end_obj();
             }
             o.end_arr();
-        } catch (std::exception& e) { o.key("ok").b(false).key("err").str(e.what()).key("types").arr().end_arr().key("cells").arr().end_arr(); }
+        } catch (std::exception& e) { o.key("ok").b(false).key("path_same").b(true).key("err").str(e.what()).key("types").arr().end_arr().key("cells").arr().end_arr(); }
         o.end_obj();
         o.end_obj();
         fprintf(fo, "%s\n", o.text().c_str());
